@@ -195,6 +195,24 @@ func init() {
 								}
 							}
 						}
+						if !isDefault {
+							// the arm taken when every kind predicate of the dispatched value has failed, however the chain is
+							// written: all conditions on the way to the panic, from the first kind test on, are negated kind tests
+							negKinds, other := 0, 0
+							for _, g := range fi.Guards(cl) {
+								cl2 := callOf(g.Expr)
+								isKind := cl2 != nil && strings.HasPrefix(fi.calleeName(cl2), pathW+".ProvidedType.Is")
+								switch {
+								case isKind && g.Neg:
+									negKinds++
+								case negKinds > 0:
+									other++
+								}
+							}
+							if negKinds >= 2 && other == 0 {
+								isDefault = true
+							}
+						}
 						r.Check(isDefault, key, cl.Pos(), "panic is the default arm of an exhaustive dispatch: %s", why)
 					default:
 						r.Ok(key, cl.Pos(), "%s", why)
